@@ -27,3 +27,6 @@ func (e *Encoder) VerifH2libTable() VerifH2libTab {
 }
 
 func (d *Decoder) VerifH2libTable() VerifH2libTab { return verifH2libView(&d.dynTab) }
+
+// VerifH2libStatic returns a copy of the static table (index 1 first).
+func VerifH2libStatic() []HeaderField { return append([]HeaderField(nil), staticTable[:]...) }
